@@ -444,10 +444,10 @@ class Responder():
         Service wsgi compatible application
         """
         if not self.closed and not self.ended:
-            if self.iterator is None:  # initiate application
-                self.iterator = iter(self.app(self.environ,
-                                              start_response=self.start))
             try:
+                if self.iterator is None:  # initiate application
+                    self.iterator = iter(self.app(self.environ,
+                                                  start_response=self.start))
                 msg = next(self.iterator)
             except StopIteration as ex:
                 if hasattr(ex, "value") and ex.value:
@@ -472,6 +472,8 @@ class Responder():
                                     "%s\n", ex)
             except Exception as ex:  # handle http exceptions not caught by app
                 logger.error("Unexcepted Server Error.\n%s\n", ex)
+                if self.iterator is None:  # app raised when called so cannot respond
+                    self.close()  # server closes the connection
             else:
                 if msg:  # only write if not empty allows async processing
                     self.write(msg)
